@@ -1,6 +1,7 @@
 import IkeModel.GoRt
 import IkeModel.Eap
 import IkeModel.Types
+import IkeModel.Security.Sa
 
 /-! Go objects of packages that `tools/go2lean` does not translate (yet), as the generated
 code sees them: the hand-written model stands in for them (`tools/go2lean/extern.json`). -/
@@ -22,4 +23,16 @@ end Ike.GenExt
 namespace Ike.GenExt
 /-- `new(message.Transform)` as the registry packages see it -/
 def Transform_zero : Ike.Transform := ⟨0, 0, false, 0, 0, 0, []⟩
+end Ike.GenExt
+
+namespace Ike.GenExt
+/-- `lib.PKCS7Padding(plain, blockSize)` as package `encr` sees it: the hand-written model's padding for the one
+block size `encr` passes (16); `IkeProofs/RefineReg/Cbc.lean` proves the translation of `lib.PKCS7Padding` equal to it -/
+def PKCS7Padding (rnd : Rand) (plain : Bytes) (blockSize : Int) : Res (Rand × Bytes) :=
+  if blockSize = 16 then
+    match pkcs7Pad rnd plain with
+    | (r, .ok b) => .ok (r, b)
+    | (_, .err) => .err
+    | (_, .fault) => .fault
+  else .fault
 end Ike.GenExt
